@@ -216,6 +216,19 @@ func (r *renderer) emit(depth int, s string) {
 	if r.l.BlankLines && r.l.coin() && r.l.Rng.Intn(5) == 0 {
 		r.push("")
 	}
+	if r.l.Comments && r.l.Rng.Intn(6) == 0 {
+		// a comment that begins on a line of its own and ends on the statement's line: the
+		// statement still belongs to the block its (physical) line is indented into
+		open, close := "/* 多行", "注释 */ "
+		if r.l.Rng.Intn(3) == 0 {
+			open, close = "注：“多行", "注释” "
+		}
+		r.push(strings.Repeat(r.l.indent(), depth) + open)
+		if r.l.Rng.Intn(2) == 0 {
+			r.push(strings.Repeat(r.l.indent(), depth) + "中间")
+		}
+		s = close + s
+	}
 	for _, t := range r.pending {
 		r.LineOf[t] = r.phys + 1
 	}
